@@ -136,8 +136,7 @@ After a successful `Unit::write`: for every reference `(pos, id)` that pass 2 re
 `id` was written by pass 2 at some section position `target`, pass 1 had assigned exactly `target`
 to it, and the `word` bytes at `pos` in `.debug_info` are the encoding of `target - unit offset`
 — the value a reader adds to the unit's offset to find the entry.  Bytes of earlier units are not
-touched. (That the *later* cross-unit patching leaves these bytes alone follows from the
-placeholders being disjoint; see `fixups_resolve` for what it writes.) -/
+touched. (`unit_refs_survive` carries this to the end of `Dwarf::write`.) -/
 theorem unit_refs_resolve (e : Endian) (so lso : List Nat) (s s' : Sec) (u : UnitIn) (o : Offs)
     (hnd : (unitRoot u).ids.Nodup) (h : writeUnit e so lso s u = .ok (s', o)) :
     ∃ (hdr : Bytes) (p1 : P1) (em : Emit),
